@@ -95,7 +95,9 @@ def obst_ops(kind):
                ["p.shape=", ["circle", 1.5, 0.0, 0.0]], ["p.shape=", ["rect", 6.0, 1.0, 0.0, 0.0, 0.0]], ["p.traj=", "B"], ["p.traj=", "C"],
                ["o.update_prediction", "B"], ["o.prediction=", "C"], ["o.prediction=", None], ["o.initial_state=", [40.0, 40.0, 1.0]],
                # a new initial state at the SAME position with another heading (turning on the spot), assigned and pushed with history
-               ["o.initial_state=", "turn"], ["o.update_initial_state", 2, "turn"]]
+               ["o.initial_state=", "turn"], ["o.update_initial_state", 2, "turn"],
+               # the prediction is handed its own trajectory object again (how a caller makes it pick up a change made on trajectory level)
+               ["p.traj=same"]]
         for k in (1, 2, 3):
             ops.append(["o.update_initial_state", k])
         return ops
@@ -112,7 +114,7 @@ def obst_step(kind):
         tainted = model.get("tainted", False)
         if k == "t.tr":
             tainted = True     # the prediction cannot see a motion applied to its trajectory object
-        elif k in ("o.tr", "p.tr", "p.shape=", "p.traj=", "o.update_prediction", "o.prediction=", "o.update_initial_state"):
+        elif k in ("o.tr", "p.tr", "p.shape=", "p.traj=", "p.traj=same", "o.update_prediction", "o.prediction=", "o.update_initial_state"):
             tainted = False    # these replace or invalidate the cached occupancies
         try:
             p = o.prediction
@@ -132,6 +134,9 @@ def obst_step(kind):
             elif k == "p.shape=":
                 if p is not None:
                     p.shape = spec.mk_shape(op[1])
+            elif k == "p.traj=same":
+                if p is not None:
+                    p.trajectory = p.trajectory
             elif k == "p.traj=":
                 if p is not None:
                     p.trajectory = spec.mk_prediction(TRAJ[op[1]](mk)).trajectory
@@ -425,6 +430,13 @@ def scen_start():
                        {"role": "static", "id": 71, "type": "PARKED_VEHICLE", "shape": ["rect", 3.0, 1.5, 0.0, 0.0, 0.0], "initial_state": spec.init_state(x=6.0, y=3.0, o=0.4, t=0)}]
     sp["pps"] = []
     sc, _ = spec.build(sp)
+    # a second dynamic obstacle whose trajectory is constructed from the SAME Python list of states as obstacle 70's (a caller-owned list used twice)
+    from commonroad.scenario.obstacle import DynamicObstacle, ObstacleType
+    from commonroad.scenario.trajectory import Trajectory
+    from commonroad.prediction.prediction import TrajectoryPrediction
+    shared = sc.obstacle_by_id(70).prediction.trajectory.state_list
+    sc.add_objects(DynamicObstacle(72, ObstacleType.CAR, spec.mk_shape(["rect", 3.0, 1.5, 0.0, 0.0, 0.0]), spec.mk_state(spec.init_state(x=0.0, y=3.0, o=0.0, t=0)),
+                                   TrajectoryPrediction(Trajectory(1, shared), spec.mk_shape(["rect", 3.0, 1.5, 0.0, 0.0, 0.0]))))
     return sc, {"deferred": False}
 
 
